@@ -58,11 +58,21 @@ def _ctz(v, w):
 _SIMPLE_FP = {"fadd": "add", "fsub": "add", "fmul": "mul", "fdiv": "div"}
 
 
+def _ovf(opn, flags, x, y, w, loc):
+    """an overflow-flagged (nsw/nuw) operation overflows here: the point goes to term.ev, which knows
+    whether the operation is actually reached (select is lazy) and words the Poison message"""
+    try:
+        T._check_overflow(opn, flags, x, y, w, loc)
+    except T.Poison:
+        raise _Slow()
+
+
 class Compiled:
-    def __init__(self, t, max_nodes=400000):
+    def __init__(self, t, max_nodes=400000, watch=None):
         self.t = t
         self.fn = None
         self.n = 0
+        self.watch = watch
         try:
             self._build(t, max_nodes)
         except _TooMany:
@@ -73,6 +83,24 @@ class Compiled:
         order = []
         seen = {}
         stack = [(root, False)]
+        watch = self.watch or {}
+        if watch:
+            # operands of the overflow-flagged operations inside this closed form must be computed too
+            inside = set()
+            st = [root]
+            while st:
+                x = st.pop()
+                if id(x) in inside:
+                    continue
+                inside.add(id(x))
+                st.extend(self._kids(x))
+            extra = []
+            for k, lst in watch.items():
+                if k in inside:
+                    for opn, flags, a, b, loc in lst:
+                        extra += [a, b]
+            stack = [(x, False) for x in extra] + stack
+            watch = {k: v for k, v in watch.items() if k in inside}
         while stack:
             x, done = stack.pop()
             if id(x) in seen:
@@ -208,6 +236,8 @@ class Compiled:
                 _, frm, oo = o.split(":", 2)
                 extra = ", sub=True" if oo == "fsub" else ""
                 ap(" %s = fp_%s(%s, %s, %d, %r%s)" % (d, _SIMPLE_FP[oo], v(x[2]), v(x[3]), w, frm, extra))
+            elif o == "fcmp":
+                ap(" %s = 1 if _fcmp(%r, %s, %s, %d) else 0" % (d, x[2], v(x[3]), v(x[4]), x[3][1]))
             elif o == "x86.permx":
                 ap(" %s = (%s >> ((%s & %d) * %d)) & %d" % (d, v(x[2]), v(x[3]), x[2][1] // w - 1, w, M))
             elif o == "x86.pshufb":
@@ -222,8 +252,12 @@ class Compiled:
                 kn = "k%d" % i
                 consts[kn] = tuple(id(y) for y in kids)
                 ap(" %s = _fb(%s, env, %s, (%s))" % (d, cn, kn, "".join(v(y) + ", " for y in kids)))
+            if id(x) in watch and o != "const":
+                for wi, (opn, flags, a_, b_, loc) in enumerate(watch[id(x)]):
+                    ap(" _ovf(%r, %r, %s, %s, %d, %r)" % (opn, tuple(flags) if not isinstance(flags, str) else flags,
+                                                       v(a_), v(b_), a_[1], loc))
         ap(" return %s" % v(root))
-        g = {"U": U, "_fb": _fb, "_clz": _clz, "_ctz": _ctz, "fp_add": fpeval.add, "fp_mul": fpeval.mul,
+        g = {"U": U, "_fb": _fb, "_ovf": _ovf, "_fcmp": T.eval_fcmp, "_clz": _clz, "_ctz": _ctz, "fp_add": fpeval.add, "fp_mul": fpeval.mul,
              "fp_div": fpeval.div}
         g.update(consts)
         exec(compile("\n".join(lines), "<closed form>", "exec"), g)
@@ -238,7 +272,7 @@ class Compiled:
     # -------------------------------------------------------------- evaluation
     def ev(self, env):
         """same contract as term.ev(self.t, env): value, or raises T.Poison / T.Uneval"""
-        if self.fn is not None and env.get("watch") is None:
+        if self.fn is not None and (env.get("watch") is None or env.get("watch") is self.watch):
             try:
                 r = self.fn(env["args"], env.get("mem"), env.get("rm", "RN"), env)
                 if r is not U:
@@ -255,12 +289,13 @@ class _TooMany(Exception):
 _cache = {}
 
 
-def compiled(t):
+def compiled(t, watch=None):
     """memoised per term identity (terms are interned; the cache is dropped with T.reset())"""
-    c = _cache.get(id(t))
-    if c is None or c.t is not t:
-        c = Compiled(t)
+    key = (id(t), id(watch) if watch else 0)
+    c = _cache.get(key)
+    if c is None or c.t is not t or c.watch is not (watch or None):
+        c = Compiled(t, watch=watch or None)
         if len(_cache) > 64:
             _cache.clear()
-        _cache[id(t)] = c
+        _cache[key] = c
     return c
